@@ -493,7 +493,7 @@ Qed.
 Lemma np_map_pval v v' : pval v -> np_map v = Ok v' -> pval v'.
 Proof.
   intros Hv H. destruct v; cbn [np_map pval] in *; try (inversion H; subst; cbn [pval]; auto; fail).
-  destruct (negb linear); [discriminate|]. destruct is_nat; [discriminate|]. inversion H; subst. exact I.
+  destruct is_nat; [inversion H; subst; exact I|]. destruct (negb linear); inversion H; subst; exact I.
 Qed.
 
 Definition pcell (c : cell) : Prop := pval (cv c).
@@ -506,33 +506,20 @@ Proof.
 Qed.
 
 (* ------------------------------------------------------------------ *)
-(* totality: the formatter returns Ok for every modelled value that is not a timedelta64
-   NaT / month-year unit (F-C18-3) *)
-Definition td_ok (v : value) : Prop :=
-  match v with VNpTimedelta is_nat linear _ => is_nat = false /\ linear = true | _ => True end.
-
+(* totality: the formatter returns Ok for every modelled value and every width *)
 Lemma fmt_value_total v w : exists t, fmt_value v w = Ok t.
 Proof.
   destruct v; cbn [fmt_value]; try (eexists; reflexivity).
   destruct isnan; eexists; reflexivity.
 Qed.
 
-Lemma type_formatter_total c w : td_ok (cv c) -> exists t, type_formatter c w = Ok t.
+Lemma np_map_total v : exists v', np_map v = Ok v'.
 Proof.
-  unfold type_formatter. intros H.
-  destruct (cv c); cbn [np_map bind td_ok] in *; try apply fmt_value_total.
-  destruct H as [-> ->]. cbn [negb bind]. apply fmt_value_total.
+  destruct v; cbn [np_map]; try (eexists; reflexivity).
+  destruct is_nat; [eexists; reflexivity|]. destruct (negb linear); eexists; reflexivity.
 Qed.
 
-Lemma type_formatter_raises c w e :
-  type_formatter c w = Raise e ->
-  exists is_nat linear ns, cv c = VNpTimedelta is_nat linear ns /\ (is_nat = true \/ linear = false).
+Lemma type_formatter_total c w : exists t, type_formatter c w = Ok t.
 Proof.
-  intros H. destruct (cv c) eqn:E.
-  all: try (destruct (type_formatter_total c w) as [tx Htx]; [rewrite E; exact I|congruence]).
-  match goal with E : cv c = VNpTimedelta ?a ?b ?n |- _ =>
-    exists a, b, n; split; [reflexivity|];
-    destruct a; [now left|]; destruct b; [|now right];
-    destruct (type_formatter_total c w) as [tx Htx]; [rewrite E; split; reflexivity|congruence]
-  end.
+  unfold type_formatter. destruct (np_map_total (cv c)) as [v' ->]. cbn [bind]. apply fmt_value_total.
 Qed.
